@@ -484,6 +484,24 @@ func applyMut(kind string, entries []kv, m c10Mut) ([]kv, bool) {
 			must = m.Field == "iss" // parses as a DID; only the issuer needs an extractable key
 		}
 		return replace(nStr(s)), must
+	case m.Mut == "window=inverted":
+		// not-before later than the expiration: a token that is never valid, but a well-formed one (no obligation by itself)
+		exp := int64(4102444800)
+		for _, e := range entries {
+			if e.K == "exp" && e.V.Kind() == datamodel.Kind_Int {
+				exp, _ = e.V.AsInt()
+			}
+		}
+		found := false
+		for _, e := range entries {
+			if e.K == m.Field {
+				found = true
+			}
+		}
+		if !found {
+			return append(append([]kv{}, entries...), kv{m.Field, nInt(exp + 1000)}), false
+		}
+		return replace(nInt(exp + 1000)), false
 	case strings.HasPrefix(m.Mut, "noncelen="):
 		var n int
 		fmt.Sscanf(m.Mut, "noncelen=%d", &n)
@@ -619,7 +637,7 @@ func c10DecoderSub() *engine.Sub {
 	return &engine.Sub{
 		Name:   "decoders-mutated-payloads",
 		Repeat: true,
-		Rule:   "payload of a fully populated delegation / invocation with one field (quick) or two fields (thorough, pairs of a representative subset) mutated - dropped, nulled, retyped to each IPLD kind, integers at +/-2^53, +/-(2^53-1), int64 extremes and uint64 beyond int64 in time fields / argument values / policy literals / metadata, time fields as floats holding whole numbers, invalid and unusual commands, invalid DIDs, nonce lengths 0..13, malformed policies and proof lists, an unknown extra field - then signed correctly by the issuer and offered to generic and both typed decoders; must-reject mutations must be rejected (a panic is not a rejection), whatever is returned must be well formed and of the decoder's type; non-trivial = all",
+		Rule:   "payload of a fully populated delegation / invocation with one field (quick; for delegations also together with an inverted time window, nbf after exp) or two fields (thorough, pairs of a representative subset) mutated - dropped, nulled, retyped to each IPLD kind, integers at +/-2^53, +/-(2^53-1), int64 extremes and uint64 beyond int64 in time fields / argument values / policy literals / metadata, time fields as floats holding whole numbers, invalid and unusual commands, invalid DIDs, nonce lengths 0..13, malformed policies and proof lists, an unknown extra field - then signed correctly by the issuer and offered to generic and both typed decoders; must-reject mutations must be rejected (a panic is not a rejection), whatever is returned must be well formed and of the decoder's type; non-trivial = all",
 		Bound: func(t string) string {
 			return "2 kinds x every field x ~20-40 mutations (d=1); thorough adds pairs over 6 representative mutations per field; Ed25519 and P-256 issuers (nonce mutations: issuers of all 7 key algorithms)"
 		},
@@ -652,6 +670,19 @@ func c10DecoderSub() *engine.Sub {
 						for _, m := range c10Mutations(kind, f) {
 							if !emit(&c10DecCase{Kind: kind, Alg: alg, Muts: []c10Mut{{f, m}}}) {
 								return
+							}
+						}
+					}
+					// a delegation whose window is inverted (nbf after exp) AND one other field mutated: one finding does not excuse another
+					if kind == "dlg" && alg == "ed25519" {
+						for _, f := range c10Fields(kind) {
+							if f == "nbf" || f == "exp" {
+								continue
+							}
+							for _, m := range c10Mutations(kind, f) {
+								if !emit(&c10DecCase{Kind: kind, Alg: alg, Muts: []c10Mut{{"nbf", "window=inverted"}, {f, m}}}) {
+									return
+								}
 							}
 						}
 					}
